@@ -42,6 +42,8 @@ enum Fault {
     Reset(u64),
     /// EPIPE on the n-th write call; whole socket gone
     Write(u64),
+    /// the application calls `Connection::close()` once the unfiltered stream has yielded n messages
+    LocalClose(u8),
 }
 
 #[derive(Clone, Debug, Serialize, Deserialize, PartialEq)]
@@ -88,7 +90,7 @@ const WRITE_POINTS: u64 = 6;
 
 fn points(session: &[Item]) -> u64 {
     let (b, _) = script(session, 1, 2);
-    (b.len() as u64 + 1) * 3 + WRITE_POINTS
+    (b.len() as u64 + 1) * 3 + WRITE_POINTS + session.len() as u64 + 1
 }
 
 struct Echo;
@@ -120,6 +122,7 @@ struct Obs {
     late_sub: Option<Result<(), String>>,
     setup_failed: Option<String>,
     serials: Option<(u32, u32)>,
+    closed_by_app: bool,
 }
 
 fn call_res(r: zbus::Result<zbus::Message>) -> CallRes {
@@ -138,7 +141,7 @@ impl Scenario for C38Scn {
         "fault_enumeration"
     }
     fn rule(&self) -> &'static str {
-        "scripted sessions (two pending calls, an unfiltered and a rule stream, an object server, then one more call and one more subscription after the failure); fault = {EOF with the whole socket gone, EOF on the inbound half only, ECONNRESET} at EVERY inbound byte offset 0..=len of the session plus EPIPE at each of the first 6 write calls, each under several seeded schedules / read-split profiles; quick enumerates the two fixed sessions completely, thorough adds seeded random sessions; every case with a fault inside the session is non-trivial; distinct = distinct (session, fault point, schedule) triples"
+        "scripted sessions (two pending calls, an unfiltered and a rule stream, an object server, then one more call and one more subscription after the failure); fault = {EOF with the whole socket gone, EOF on the inbound half only, ECONNRESET} at EVERY inbound byte offset 0..=len of the session plus EPIPE at each of the first 6 write calls, plus Connection::close() called by the application once the unfiltered stream has yielded n = 0..=len(session) messages, each under several seeded schedules / read-split profiles; quick enumerates the two fixed sessions completely, thorough adds seeded random sessions; every case with a fault inside the session is non-trivial; distinct = distinct (session, fault point, schedule) triples"
     }
     fn runs(&self, tier: Tier) -> u64 {
         let fixed: u64 = sessions().iter().map(|s| points(s) * SEEDS_PER_POINT).sum();
@@ -204,8 +207,10 @@ impl Scenario for C38Scn {
                 1 => Fault::EofHalf(off),
                 _ => Fault::Reset(off),
             }
-        } else {
+        } else if point < (len + 1) * 3 + WRITE_POINTS {
             Fault::Write(point - (len + 1) * 3)
+        } else {
+            Fault::LocalClose((point - (len + 1) * 3 - WRITE_POINTS) as u8)
         };
         let chunk = match rng.below(4) {
             0 => Chunking::Whole,
@@ -246,6 +251,7 @@ impl Scenario for C38Scn {
                 lout.fail_write_call = Some((n, ErrKind::Pipe));
                 lout.fault_kills_both = true;
             }
+            Fault::LocalClose(_) => {}
         }
         let (sock, raw) = sim_pair(w, lin, lout, SockCfg::default());
         let obs = shared(Obs::default());
@@ -253,6 +259,7 @@ impl Scenario for C38Scn {
         // ---- app ----
         let o = obs.clone();
         let ww = w.clone();
+        let p_fault = p.fault;
         let app = w.spawn("app", async move {
             let conn = match zbus::connection::Builder::authenticated_socket(sock, crate::peers::GUID)
                 .unwrap()
@@ -279,11 +286,27 @@ impl Scenario for C38Scn {
                 }
             };
             let ended = Arc::new(Event::new());
+            let progress = Arc::new(Event::new());
             let mut tasks = vec![];
+            if let Fault::LocalClose(n) = p_fault {
+                let (conn, o, progress) = (conn.clone(), o.clone(), progress.clone());
+                tasks.push(ww.spawn("closer", async move {
+                    loop {
+                        let l = progress.listen();
+                        if o.lock().unwrap().all.len() >= n as usize {
+                            break;
+                        }
+                        l.await;
+                    }
+                    o.lock().unwrap().closed_by_app = true;
+                    let _ = conn.close().await;
+                }));
+            }
             // consumers
             for (name, mut stream, which) in [("consumer-all", all, 0u8), ("consumer-hits", hits, 1u8)] {
                 let o = o.clone();
                 let ended = ended.clone();
+                let progress = progress.clone();
                 tasks.push(ww.spawn(name, async move {
                     while let Some(item) = stream.next().await {
                         let rec = match item {
@@ -301,7 +324,9 @@ impl Scenario for C38Scn {
                         };
                         let mut g = o.lock().unwrap();
                         if which == 0 {
-                            g.all.push(rec)
+                            g.all.push(rec);
+                            drop(g);
+                            progress.notify(usize::MAX);
                         } else {
                             g.hits.push(rec)
                         }
@@ -399,7 +424,7 @@ impl Scenario for C38Scn {
         raw.rx.drop_wakers();
         if let Some(e) = g.setup_failed {
             // a write fault can legitimately hit during setup
-            if matches!(p.fault, Fault::Write(_) | Fault::Eof(0) | Fault::EofHalf(0) | Fault::Reset(0)) {
+            if matches!(p.fault, Fault::Write(_) | Fault::LocalClose(_) | Fault::Eof(0) | Fault::EofHalf(0) | Fault::Reset(0)) {
                 return Verdict::ok(false);
             }
             return Verdict::harness(format!("setup failed: {e}"));
@@ -411,6 +436,7 @@ impl Scenario for C38Scn {
         let (fired, cut): (bool, Option<u64>) = match p.fault {
             Fault::Eof(o) | Fault::EofHalf(o) | Fault::Reset(o) => (g.serials.is_some() && read_total >= o.min(len) && o <= len, Some(o)),
             Fault::Write(n) => (write_calls > n, None),
+            Fault::LocalClose(_) => (g.closed_by_app, None),
         };
         // read faults placed at offset 0 fire even before the script is played
         let fired = fired || matches!(p.fault, Fault::Eof(0) | Fault::EofHalf(0) | Fault::Reset(0));
